@@ -1065,6 +1065,85 @@ func c11RunMetaRow(c *c11Case) string {
 	return fmt.Sprintf("c11 metarow %s %s", hx(row), impl)
 }
 
+type c11ExtraSrv struct{ resp *pb.ScanResponse }
+
+func (f *c11ExtraSrv) SendRPC(call hrpc.Call) (proto.Message, error) {
+	call.SetRegion(region.NewInfo(1, nil, []byte("t"), []byte("t,,1.x."), nil, nil))
+	// as the region client does: the response is decoded from its wire form into NewResponse()
+	b, _ := proto.Marshal(f.resp)
+	m := call.NewResponse()
+	if err := proto.Unmarshal(b, m); err != nil {
+		return nil, err
+	}
+	return m, nil
+}
+
+// c11RunScanExtra: a structurally valid ScanResponse carrying optional parts the scan did not ask
+// for (scan metrics without TrackScanMetrics, a scanner id equal to the client's sentinel, …) goes
+// to the scanner; Next either yields rows / io.EOF or reports an error.
+func c11RunScanExtra(c *c11Case) string {
+	no, yes := false, true
+	resp := &pb.ScanResponse{MoreResults: &no, MoreResultsInRegion: &no,
+		Results: []*pb.Result{{Cell: []*pb.Cell{{Row: []byte("a"), Family: []byte("f"), Qualifier: []byte("q"), Value: []byte("v")}}}}}
+	var opts []func(hrpc.Call) error
+	switch c.rawMode {
+	case "metrics-untracked":
+		resp.ScanMetrics = &pb.ScanMetrics{Metrics: []*pb.NameInt64Pair{{Name: proto.String("ROWS_SCANNED"), Value: proto.Int64(1)}}}
+	case "metrics-tracked":
+		resp.ScanMetrics = &pb.ScanMetrics{Metrics: []*pb.NameInt64Pair{{Name: proto.String("ROWS_SCANNED"), Value: proto.Int64(1)}}}
+		opts = append(opts, hrpc.TrackScanMetrics())
+	case "metrics-noname":
+		resp.ScanMetrics = &pb.ScanMetrics{Metrics: []*pb.NameInt64Pair{{Value: proto.Int64(1)}}}
+		opts = append(opts, hrpc.TrackScanMetrics())
+	case "sentinel-scanner-id":
+		resp.ScannerId = proto.Uint64(1<<64 - 1)
+		resp.MoreResultsInRegion = &yes
+		resp.MoreResults = nil
+	}
+	scan, err := hrpc.NewScanStr(context.Background(), "t", opts...)
+	if err != nil {
+		return "c11 scanextra " + c.rawMode + " build-error"
+	}
+	sc := gohbase.VerifNewScanner(&c11ExtraSrv{resp: resp}, scan)
+	impl := func() (res string) {
+		defer func() {
+			if r := recover(); r != nil {
+				res = "panic"
+			}
+		}()
+		done := make(chan string, 1)
+		go func() {
+			defer func() {
+				if r := recover(); r != nil {
+					done <- "panic"
+				}
+			}()
+			n := 0
+			for n < 50 {
+				_, err := sc.Next()
+				if err != nil {
+					if err == io.EOF {
+						done <- fmt.Sprintf("eof-after-%d", n)
+					} else {
+						done <- "err"
+					}
+					return
+				}
+				n++
+			}
+			done <- "no-end-after-50-rows"
+		}()
+		select {
+		case r := <-done:
+			return r
+		case <-time.After(5 * time.Second):
+			return "hang"
+		}
+	}()
+	sc.Close()
+	return fmt.Sprintf("c11 scanextra %s %s", c.rawMode, impl)
+}
+
 // c11RunIncr: the answer to an Increment carries one cell whose value has the given length.
 func c11RunIncr(c *c11Case) string {
 	cl := newSimCluster()
@@ -1255,6 +1334,8 @@ func (c *c11Case) desc() string {
 		return "info " + hx(c.infoVal)
 	case "metarow":
 		return "metarow " + hx(c.metaRow)
+	case "scanextra":
+		return "scanextra " + c.rawMode
 	case "incr":
 		return fmt.Sprintf("incr %d", len(c.infoVal))
 	case "coalesce":
@@ -1282,7 +1363,7 @@ func (c *c11Case) desc() string {
 
 func (c *c11Case) crashKind() string {
 	switch c.op {
-	case "info", "coalesce", "metarow", "incr":
+	case "info", "coalesce", "metarow", "incr", "scanextra":
 		return c.op
 	}
 	return c.kind
@@ -1296,6 +1377,8 @@ func c11RunOne(c *c11Case) (line string, clean bool) {
 		return c11RunInfo(c), true
 	case "metarow":
 		return c11RunMetaRow(c), true
+	case "scanextra":
+		return c11RunScanExtra(c), true
 	case "incr":
 		return c11RunIncr(c), true
 	case "coalesce":
